@@ -217,7 +217,7 @@ package atree
 //@        (forall k :: chi + 1 < k && k < len(a.childrenHeaders) ==> a.childrenHeaders[k] == old(a.childrenHeaders)[k - 1]) &&
 //@        a.childrenHeaders[chi].count + a.childrenHeaders[chi + 1].count == old(a.childrenHeaders)[chi].count
 //@   ensures[C05] err == nil ==> hdrBand(a.childrenHeaders[chi]) && hdrBand(a.childrenHeaders[chi + 1]) && nodeWF(sto[a.childrenHeaders[chi].slabID]) && nodeWF(sto[a.childrenHeaders[chi + 1].slabID])
-//@   ensures[C01 C03] err == nil ==> has(stored, a) && has(stored, sto[a.childrenHeaders[chi].slabID]) && has(stored, sto[a.childrenHeaders[chi + 1].slabID])
+//@   ensures[C01 C03 C08] err == nil ==> has(stored, a) && has(stored, sto[a.childrenHeaders[chi].slabID]) && has(stored, sto[a.childrenHeaders[chi + 1].slabID])
 //@   ensures[C09] forall id SlabID :: old(sto[id]) != nil && id != old(a.header.slabID) && id != old(a.childrenHeaders)[chi].slabID ==> sto[id] == old(sto[id])
 //@   modifies a.childrenHeaders, a.childrenCountSum, a.header, ghost.sto, ghost.issued, ghost.stored, ghost.touched, alloc,
 //@        as(child, *ArrayDataSlab).elements, as(child, *ArrayDataSlab).header, as(child, *ArrayDataSlab).next,
@@ -247,7 +247,7 @@ package atree
 //@   ensures[C05] err == nil ==> nodeWF(l) && nodeWF(r)
 //@   ensures[C09] err == nil ==> sto[a.header.slabID] == a && distinctChildren(a)
 //@   ensures[C09] err == nil ==> agree(a)
-//@   ensures[C01 C03] err == nil ==> has(stored, a) && has(stored, l) && has(stored, r)
+//@   ensures[C01 C03 C08] err == nil ==> has(stored, a) && has(stored, l) && has(stored, r)
 //@   ensures[C09] forall id SlabID :: id != old(a.header.slabID) && id != old(a.childrenHeaders)[li].slabID && id != old(a.childrenHeaders)[ri].slabID ==> sto[id] == old(sto[id])
 //@   modifies a.childrenHeaders, a.childrenCountSum, ghost.sto, ghost.issued, ghost.stored, ghost.touched, alloc,
 //@        as(l, *ArrayDataSlab).elements, as(l, *ArrayDataSlab).header, as(r, *ArrayDataSlab).elements, as(r, *ArrayDataSlab).header,
@@ -271,7 +271,7 @@ package atree
 //@   ensures[C05] err == nil ==> hdrBand(a.childrenHeaders[li]) && nodeWF(l)
 //@   ensures[C09] err == nil ==> sto[old(a.childrenHeaders)[ri].slabID] == nil && sto[a.header.slabID] == a && distinctChildren(a)
 //@   ensures[C09] err == nil ==> agree(a)
-//@   ensures[C01 C03] err == nil ==> has(stored, a) && has(stored, l)
+//@   ensures[C01 C03 C08] err == nil ==> has(stored, a) && has(stored, l)
 //@   ensures[C09] forall id SlabID :: id != old(a.header.slabID) && id != old(a.childrenHeaders)[li].slabID && id != old(a.childrenHeaders)[ri].slabID ==> sto[id] == old(sto[id])
 //@   modifies a.childrenHeaders, a.childrenCountSum, a.header, ghost.sto, ghost.issued, ghost.stored, ghost.touched, alloc,
 //@        as(l, *ArrayDataSlab).elements, as(l, *ArrayDataSlab).header, as(l, *ArrayDataSlab).next,
@@ -295,7 +295,7 @@ package atree
 //@   ensures[C05] err == nil ==> (forall k :: 0 <= k && k < len(a.childrenHeaders) && (forall j :: 0 <= j && j < len(old(a.childrenHeaders)) && j != chi ==> hdrBand(old(a.childrenHeaders)[j])) ==> hdrBand(a.childrenHeaders[k]))
 //@   ensures[C09] err == nil ==> sto[a.header.slabID] == a && distinctChildren(a)
 //@   ensures[C09] err == nil ==> agree(a)
-//@   ensures[C01 C03] err == nil ==> has(stored, a)
+//@   ensures[C01 C03 C08] err == nil ==> has(stored, a)
 //@   ensures[C09] forall id SlabID :: id != old(a.header.slabID) && (forall k :: 0 <= k && k < len(old(a.childrenHeaders)) ==> id != old(a.childrenHeaders)[k].slabID) ==> sto[id] == old(sto[id])
 //@   modifies ArrayMetaDataSlab.childrenHeaders@inSub(a), ArrayMetaDataSlab.childrenCountSum@inSub(a), ArrayMetaDataSlab.header@inSub(a),
 //@        ArrayDataSlab.elements@inSub(a), ArrayDataSlab.header@inSub(a), ArrayDataSlab.next@inSub(a), ghost.sto, ghost.issued, ghost.stored, ghost.touched, alloc
@@ -312,7 +312,14 @@ package atree
 //@      inSub(a, sto[a.childrenHeaders[k].slabID]) && !inSub(sto[a.childrenHeaders[k].slabID], a) &&
 //@      (forall j :: 0 <= j && j < len(a.childrenHeaders) && j != k ==> !inSub(sto[a.childrenHeaders[k].slabID], sto[a.childrenHeaders[j].slabID]))
 
+//@ # routedA(a, k, index): child k holds position index of a; adjA: the position inside that child
+//@ pred routedA(a *ArrayMetaDataSlab, k int, index int) = 0 <= k && k < len(a.childrenHeaders) && index < a.childrenCountSum[k] && (k > 0 ==> a.childrenCountSum[k - 1] <= index)
+//@ pred adjA(a *ArrayMetaDataSlab, k int, index int) = index - ite(k > 0, a.childrenCountSum[k - 1], 0)
+
 //@ func (a *ArrayMetaDataSlab) Get(storage, index) (elem, err)  serves C01 C18
+//@   # the request goes to the child that holds the position, with the position inside that child, and the unchanged value (C01)
+//@   before[C01] ArrayDataSlab.Get: (exists k :: routedA(a, k, index) && arg_recv == sto[a.childrenHeaders[k].slabID] && arg_index == adjA(a, k, index)) && arg_storage == storage
+//@   before[C01] ArrayMetaDataSlab.Get: (exists k :: routedA(a, k, index) && arg_recv == sto[a.childrenHeaders[k].slabID] && arg_index == adjA(a, k, index)) && arg_storage == storage
 //@   requires storage != nil && wfMeta(a) && metaLinked(a)
 //@   assume childrenReady(a) because "tree invariant (composition): children of a are well-formed, in band and linked"
 //@   ensures[C18] index >= a.header.count ==> err != nil && isUser(err)
@@ -327,6 +334,9 @@ package atree
 //@ pred stoFrameMeta(a *ArrayMetaDataSlab, vr ref) = forall id SlabID :: old(sto[id]) != nil && old(sto[id]) != vr && !inSub(a, old(sto[id])) ==> sto[id] == old(sto[id])
 
 //@ func (a *ArrayMetaDataSlab) Set(storage, address, index, value) (prev, err)  serves C01 C03 C05 C06 C09 C18
+//@   # the request goes to the child that holds the position, with the position inside that child, and the unchanged value (C01)
+//@   before[C01] ArrayDataSlab.Set: (exists k :: routedA(a, k, index) && arg_recv == sto[a.childrenHeaders[k].slabID] && arg_index == adjA(a, k, index)) && arg_storage == storage && arg_address == address && arg_value == value
+//@   before[C01] ArrayMetaDataSlab.Set: (exists k :: routedA(a, k, index) && arg_recv == sto[a.childrenHeaders[k].slabID] && arg_index == adjA(a, k, index)) && arg_storage == storage && arg_address == address && arg_value == value
 //@   requires storage != nil && value != nil && wfMeta(a) && metaLinked(a) && len(a.childrenHeaders) >= 2 && a.header.size + 14 <= 4294967295
 //@   assume childrenReady(a) because "tree invariant (composition): children of a are well-formed, in band, linked, and their subtrees do not contain a"
 //@   assume !inSub(a, valueRoot(value)) because "frame assumption F: the value being stored is not a container inside the subtree of a"
@@ -339,13 +349,16 @@ package atree
 //@   ensures[C09] err == nil ==> agree(a)
 //@   ensures[C09] stoFrameMeta(a, valueRoot(value))
 //@   ensures[C05] err == nil ==> (forall k :: 0 <= k && k < len(a.childrenHeaders) ==> hdrBand(a.childrenHeaders[k]))
-//@   ensures[C01 C03] err == nil ==> has(stored, a)
+//@   ensures[C01 C03 C08] err == nil ==> has(stored, a)
 //@   ensures[C18] err != nil ==> categorised(err)
 //@   modifies ArrayMetaDataSlab.childrenHeaders@inSub(a), ArrayMetaDataSlab.childrenCountSum@inSub(a), ArrayMetaDataSlab.header@inSub(a),
 //@        ArrayDataSlab.elements@inSub(a), ArrayDataSlab.header@inSub(a), ArrayDataSlab.next@inSub(a), ghost.sto, ghost.issued, ghost.stored, ghost.touched, alloc,
 //@        as(valueRoot(value), *ArrayDataSlab).header, as(valueRoot(value), *ArrayDataSlab).inlined, as(valueRoot(value), *MapDataSlab).header, as(valueRoot(value), *MapDataSlab).inlined
 
 //@ func (a *ArrayMetaDataSlab) Insert(storage, address, index, value) (err)  serves C01 C03 C05 C06 C09 C18
+//@   # an insertion at the end goes to the last child, at its end
+//@   before[C01] ArrayDataSlab.Insert: (exists k :: ite(index == a.header.count, k == len(a.childrenHeaders) - 1 && arg_index == a.childrenHeaders[k].count, routedA(a, k, index) && arg_index == adjA(a, k, index)) && 0 <= k && k < len(a.childrenHeaders) && arg_recv == sto[a.childrenHeaders[k].slabID]) && arg_storage == storage && arg_address == address && arg_value == value
+//@   before[C01] ArrayMetaDataSlab.Insert: (exists k :: ite(index == a.header.count, k == len(a.childrenHeaders) - 1 && arg_index == a.childrenHeaders[k].count, routedA(a, k, index) && arg_index == adjA(a, k, index)) && 0 <= k && k < len(a.childrenHeaders) && arg_recv == sto[a.childrenHeaders[k].slabID]) && arg_storage == storage && arg_address == address && arg_value == value
 //@   requires storage != nil && value != nil && wfMeta(a) && metaLinked(a) && len(a.childrenHeaders) >= 2 && a.header.size + 14 <= 4294967295 && a.header.count < 4294967295
 //@   assume childrenReady(a) because "tree invariant (composition): children of a are well-formed, in band, linked, and their subtrees do not contain a"
 //@   assume !inSub(a, valueRoot(value)) because "frame assumption F: the value being stored is not a container inside the subtree of a"
@@ -357,7 +370,7 @@ package atree
 //@   ensures[C09] err == nil ==> sto[a.header.slabID] == a && distinctChildren(a)
 //@   ensures[C09] err == nil ==> agree(a)
 //@   ensures[C05] err == nil ==> (forall k :: 0 <= k && k < len(a.childrenHeaders) ==> hdrBand(a.childrenHeaders[k]))
-//@   ensures[C01 C03] err == nil ==> has(stored, a)
+//@   ensures[C01 C03 C08] err == nil ==> has(stored, a)
 //@   ensures[C18] err != nil ==> categorised(err)
 //@   modifies ArrayMetaDataSlab.childrenHeaders@inSub(a), ArrayMetaDataSlab.childrenCountSum@inSub(a), ArrayMetaDataSlab.header@inSub(a),
 //@        ArrayDataSlab.elements@inSub(a), ArrayDataSlab.header@inSub(a), ArrayDataSlab.next@inSub(a), ghost.sto, ghost.issued, ghost.stored, ghost.touched, alloc,
@@ -367,6 +380,9 @@ package atree
 //@        (forall k :: 0 <= k && k < len(a.childrenCountSum) ==> a.childrenCountSum[k] == old(a.childrenCountSum)[k] + ite(childHeaderIndex <= k && k < i, 1, 0))
 
 //@ func (a *ArrayMetaDataSlab) Remove(storage, index) (v, err)  serves C01 C03 C05 C06 C09 C18
+//@   # the request goes to the child that holds the position, with the position inside that child, and the unchanged value (C01)
+//@   before[C01] ArrayDataSlab.Remove: (exists k :: routedA(a, k, index) && arg_recv == sto[a.childrenHeaders[k].slabID] && arg_index == adjA(a, k, index)) && arg_storage == storage
+//@   before[C01] ArrayMetaDataSlab.Remove: (exists k :: routedA(a, k, index) && arg_recv == sto[a.childrenHeaders[k].slabID] && arg_index == adjA(a, k, index)) && arg_storage == storage
 //@   requires storage != nil && wfMeta(a) && metaLinked(a) && len(a.childrenHeaders) >= 2
 //@   assume childrenReady(a) because "tree invariant (composition): children of a are well-formed, in band, linked, and their subtrees do not contain a"
 //@   uses monoCS
@@ -377,7 +393,7 @@ package atree
 //@   ensures[C09] err == nil ==> sto[a.header.slabID] == a && distinctChildren(a)
 //@   ensures[C09] err == nil ==> agree(a)
 //@   ensures[C05] err == nil ==> (forall k :: 0 <= k && k < len(a.childrenHeaders) ==> hdrBand(a.childrenHeaders[k]))
-//@   ensures[C01 C03] err == nil ==> has(stored, a)
+//@   ensures[C01 C03 C08] err == nil ==> has(stored, a)
 //@   ensures[C18] err != nil ==> categorised(err)
 //@   modifies ArrayMetaDataSlab.childrenHeaders@inSub(a), ArrayMetaDataSlab.childrenCountSum@inSub(a), ArrayMetaDataSlab.header@inSub(a),
 //@        ArrayDataSlab.elements@inSub(a), ArrayDataSlab.header@inSub(a), ArrayDataSlab.next@inSub(a), ghost.sto, ghost.issued, ghost.stored, ghost.touched, alloc
